@@ -183,8 +183,11 @@ def grouping(ctx) -> None:
                     ok_order = True
                 # merged with the row sorting: the group of this key is unpacked at the top of the body and its sorted
                 # version is appended (C18.one-permutation checks that it is the same group, re-indexed)
+                def _gval(m):
+                    return fv.def_expr(m.ast.value, m.id)[0] if isinstance(m.ast.value, ast.Name) else m.ast.value
+
                 unpacks = [m for m in (fv.cfg.nodes[i] for i in lbody) if m.kind == "stmt" and isinstance(m.ast, ast.Assign) and isinstance(m.ast.targets[0], ast.Tuple)
-                           and isinstance(m.ast.value, ast.Subscript) and is_name(m.ast.value.slice, n.ast.target.id) and not fv.controlling(m.id, within=lbody)]
+                           and isinstance(_gval(m), ast.Subscript) and is_name(_gval(m).slice, n.ast.target.id) and not fv.controlling(m.id, within=lbody)]
                 if len(unpacks) == 1 and isinstance(arg, ast.Tuple) and len(arg.elts) == len(unpacks[0].ast.targets[0].elts):
                     ok_order = True
     if not ok_order and not any_sort and any(isinstance(x, ast.Call) and call_fname(x) in ("sorted", "sort", "argsort", "lexsort") for n in fv.cfg.nodes if n.ast is not None for x in own_walk(n.ast)):
@@ -278,9 +281,11 @@ def sorting(ctx) -> None:
         for lp in [n for n in fv.cfg.nodes if n.kind == "for" and isinstance(n.ast.target, ast.Name)]:
             lb = fv.cfg.loop_body[lp.id]
             for m in (fv.cfg.nodes[i] for i in sorted(lb)):
-                if m.kind == "stmt" and isinstance(m.ast, ast.Assign) and isinstance(m.ast.targets[0], ast.Tuple) and len(m.ast.targets[0].elts) == 3 and all(isinstance(e, ast.Name) for e in m.ast.targets[0].elts) \
-                        and isinstance(m.ast.value, ast.Subscript) and isinstance(m.ast.value.value, ast.Name) and is_name(m.ast.value.slice, lp.ast.target.id) and not fv.controlling(m.id, within=lb):
-                    target = (lp, m.ast.value.value.id, m.ast.targets[0])
+                if m.kind == "stmt" and isinstance(m.ast, ast.Assign) and isinstance(m.ast.targets[0], ast.Tuple) and len(m.ast.targets[0].elts) == 3 and all(isinstance(e, ast.Name) for e in m.ast.targets[0].elts):
+                    # the group may pass through a single-definition local (a helper's parameter bound by the expansion)
+                    gval = fv.def_expr(m.ast.value, m.id)[0] if isinstance(m.ast.value, ast.Name) else m.ast.value
+                    if isinstance(gval, ast.Subscript) and isinstance(gval.value, ast.Name) and is_name(gval.slice, lp.ast.target.id) and not fv.controlling(m.id, within=lb):
+                        target = (lp, gval.value.id, m.ast.targets[0])
     if target is None:
         sorts = any(isinstance(x, ast.Call) and call_fname(x) in ("sorted", "sort", "argsort", "lexsort") for n in fv.cfg.nodes if n.ast is not None for x in own_walk(n.ast))
         if sorts and any(n.kind == "for" for n in fv.cfg.nodes):
